@@ -44,6 +44,7 @@ from .common import (
     ValueMapType,
     call_mapper,
     call_predicate,
+    call_serialize_mapper,
     call_traversal_cb,
 )
 from .dot import node_to_dot
@@ -1555,7 +1556,7 @@ class Node:
         # Add custom data_id if not calculated to the hash by default.
         if _has_custom_data_id(self):
             res["data_id"] = self._data_id
-        res = call_mapper(mapper, self, res)
+        res = call_serialize_mapper(mapper, self, res)
         # if mapper:
         #     res = mapper(self, res)
         if self._children:
@@ -1682,7 +1683,7 @@ class Node:
 
             # Let caller serialize custom data objects
             if mapper and isinstance(data, dict):
-                data = call_mapper(mapper, node, data)
+                data = call_serialize_mapper(mapper, node, data)
 
             # Compress data if requested
             if key_map or value_map:
